@@ -72,3 +72,9 @@ def reset_weights():
 def grammar(**kw):
     reset_weights()
     return extract_grammar(list(CLASSES), START, **kw)
+
+
+def grammar_zero_first(**kw):
+    """the zero-weight production is the FIRST production of its rule"""
+    reset_weights()
+    return extract_grammar([Z, A, B, Sub, S1, S2], START, **kw)
